@@ -10,7 +10,7 @@ From Coq Require Import List NArith ZArith Bool Arith Lia Ring Reals RealField L
 From Coquelicot Require Import Coquelicot.
 From PV Require Import Graph.OpFamily Tensor.Kernels Tensor.Index Tensor.KernelProofs Tensor.ProofsGather
   Tensor.ProofsPerm Tensor.ProofsBilinear Scalar.ScalarBase Gen.ScalarGen Scalar.Deriv Scalar.Pown
-  Tensor.AdjCore Tensor.AdjMatmul Tensor.AdjScalar Tensor.GraphInst Tensor.AdjMax Tensor.AdjSoftmax Tensor.AdjScalarR Tensor.GraphInstR.
+  Tensor.AdjCore Tensor.AdjMatmul Tensor.AdjScalar Tensor.GraphInst Tensor.AdjMax Tensor.AdjSoftmax Tensor.AdjSoftmaxB Tensor.AdjScalarR Tensor.GraphInstR.
 Import ListNotations.
 Local Open Scope R_scope.
 
@@ -693,6 +693,158 @@ Proof.
     intro t. rewrite nth_overflow; [reflexivity|]. rewrite (gather_length 0). lia.
 Qed.
 
+(* ---- dense softmax cross entropy, minibatch broadcasting between x and t (either direction) ---- *)
+(* element d of the batch-B index space reads x at  share_ix sx V d  and t at  share_ix st V d *)
+Lemma map_bprog_nth (h : nat * (nat * nat) -> R) B V fa fb d : (d < B * V)%nat ->
+  nth d (map h (bprog B V fa fb)) 0 = h (d, (fa (d / V) (d mod V), fb (d / V) (d mod V)))%nat.
+Proof.
+  intro Hd. rewrite (nth_indep (map h (bprog B V fa fb)) 0 (h (0%nat, (0%nat, 0%nat)))) by (rewrite map_length, bprog_length; exact Hd).
+  rewrite map_nth, (bprog_nth B V fa fb d Hd). reflexivity.
+Qed.
+Definition sceb_dom (sx st sy : tshape) (dim : nat) (xs : list (list R)) : Prop :=
+  forall e, In e (axis_red (ew_shape sx st) sy dim) ->
+    gsum (fun d => nth (share_ix st (tvolume sx) d) (nth 1 xs []) 0) (snd e) = 1.
+
+Lemma sceb_deriv sx st srx sy dim : desc_deriv (sceb_desc sx st srx sy dim) (sceb_dom sx st sy dim).
+Proof.
+  intros xs dxs Hx Hok Hdom r. cbn [sceb_desc d_fw d_jvp d_ok] in *. apply cderiv_single. intro i.
+  unfold sceb_ok in Hok. apply andb_prop in Hok. destruct Hok as [Hok Hsumb]. apply andb_prop in Hok. destruct Hok as [Hew Hsumx].
+  destruct (ew_ok_spec sx st Hew) as (HVa & HVb & Hba & Hbb). cbv zeta in HVa, HVb, Hba, Hbb.
+  unfold sceb_dom in Hdom.
+  set (sb := ew_shape sx st) in *. set (V := tvolume sx) in *. set (B := tbatch sb) in *.
+  set (x := fun t => nth 0 (xs t) []). set (tt := fun t => nth 1 (xs t) []). set (dx := nth 0 dxs []). set (dt := nth 1 dxs []).
+  set (p := axis_red sb sy dim) in *.
+  assert (HB : (0 < B)%nat) by (pose proof Hsumb as H; unfold sum_ok in H; bsplit; assumption).
+  assert (Hn : tsize sb = (B * V)%nat) by reflexivity.
+  pose proof (axis_seq sb sy dim Hsumb) as Hseq. fold p in Hseq.
+  assert (Hlen : length p = tsize sy) by (apply (sequential_length p _ Hseq)).
+  set (xi := share_ix sx V). set (ti := share_ix st V).
+  assert (Hq1 : ab_fw st sx sb = bprog B V (fun b i => (bsel st b * V + i)%nat) (fun b i => (bsel sx b * V + i)%nat))
+    by (apply (ab_fw_bprog st sx sb V B); reflexivity).
+  assert (Hq2 : ab_fw sx st sb = bprog B V (fun b i => (bsel sx b * V + i)%nat) (fun b i => (bsel st b * V + i)%nat))
+    by (apply (ab_fw_bprog sx st sb V B); reflexivity).
+  destruct (lt_dec i (length p)) as [Hi|Hi].
+  - set (e := nth i p (0%nat, [])). assert (He : In e p) by (apply nth_In; exact Hi).
+    assert (Ei : fst e = i) by (apply (axis_nth_fst sb sy dim Hsumb i Hi)).
+    destruct (axis_group_ok sb sy dim Hsumb e He) as (Hne & Hbnd).
+    destruct (group_share sx srx sb sy dim eq_refl Hba Hsumx Hsumb e He) as (e' & He' & Eg). fold V xi in Eg.
+    assert (Hin' : forall d, In d (snd e) -> In (xi d) (snd e')) by (intros d Hd; rewrite Eg; apply in_map; exact Hd).
+    assert (Egv : forall v : list R, gvals v (snd e') = map (fun d => nth (xi d) v 0) (snd e)) by (intro v; unfold gvals; rewrite Eg, map_map; reflexivity).
+    apply (is_derive_ext (fun t => - gsum (fun d => nth (ti d) (tt t) 0 * (nth (xi d) (x t) 0 - Stable.lse_fold (map (fun r => nth (xi r) (x t) 0) (snd e)))) (snd e))).
+    { intro t. fold (x t) (tt t). rewrite (un_eval_nth 0 fw_negate (tsize sy)) by lia. unfold fw_negate. f_equal.
+      rewrite <- Ei at 1. rewrite (axis_sum_nth sb sy dim Hsumb _ e He). apply gsum_ext. intros d Hd.
+      pose proof (Hbnd d Hd) as Hdb. rewrite Hn in Hdb.
+      unfold ab_eval. rewrite Hq1.
+      rewrite (map_bprog_nth _ B V _ _ d Hdb). cbn [fst snd]. unfold fw_multiply. fold (share_ix st V d) (share_ix sx V d). fold (ti d) (xi d).
+      rewrite (log_softmax_nth sx srx dim Hsumx (x t) e' (xi d) He' (Hin' d Hd)), Egv. reflexivity. }
+    rewrite <- Ei at 1. rewrite (axis_sum_nth sb sy dim Hsumb _ e He).
+    change (nth 0 (xs 0) []) with (x 0). change (nth 1 (xs 0) []) with (tt 0).
+    rewrite (gsum_ext _ (fun d => (exp (nth (xi d) (x 0) 0 - Stable.lse_fold (map (fun r => nth (xi r) (x 0) 0) (snd e))) - nth (ti d) (tt 0) 0) * nth (xi d) dx 0
+                               - (nth (xi d) (x 0) 0 - Stable.lse_fold (map (fun r => nth (xi r) (x 0) 0) (snd e))) * nth (ti d) dt 0) (snd e)).
+    2:{ intros d Hd. pose proof (Hbnd d Hd) as Hdb. rewrite Hn in Hdb. rewrite Hq2.
+        rewrite (map_bprog_nth _ B V _ _ d Hdb). cbn [fst snd]. fold (share_ix st V d) (share_ix sx V d). fold (ti d) (xi d).
+        rewrite (softmax_nth sx srx dim Hsumx (x 0) e' (xi d) He' (Hin' d Hd)), (log_softmax_nth sx srx dim Hsumx (x 0) e' (xi d) He' (Hin' d Hd)), Egv. reflexivity. }
+    pose proof (sce_group_deriv (fun d t => nth (xi d) (x t) 0) (fun d t => nth (ti d) (tt t) 0) (fun d => nth (xi d) dx 0) (fun d => nth (ti d) dt 0) (snd e) Hne
+                  (fun d _ => Hx 0%nat (xi d)) (fun d _ => Hx 1%nat (ti d))) as H.
+    cbv zeta beta in H. change (nth 1 (xs 0) []) with (tt 0) in Hdom. unfold ti in H. rewrite (Hdom e He) in H.
+    refine (is_derive_eq _ _ _ _ _ H). fold ti. ring.
+  - rewrite nth_overflow.
+    2:{ unfold axis_sum. destruct (sum_ok_pair sb sy dim Hsumb) as (_ & _ & Hb).
+        rewrite (scatter_length 0 Rplus _ _ (zerosR (tsize sy)) (tsize sb)); rewrite repeat_length; [lia|exact Hb]. }
+    apply (is_derive_ext (fun _ => 0)); [|apply (is_derive_const 0 0)].
+    intro t. rewrite nth_overflow; [reflexivity|]. unfold un_eval, identity_pairs, range. rewrite !map_length, seq_length. lia.
+Qed.
+
+(* ---- sparse softmax cross entropy, x of batch 1 (or B) under B index lists ---- *)
+Lemma ssceb_picked sx srx sp ids dim : ssceb_ok sx srx sp ids dim = true -> forall i, (i < tsize sp)%nat ->
+  exists s e e', In (i, (0%nat, s)) (pick_fw sx sp ids dim) /\ In e (axis_red (mkT (tdims sx) (tbatch sp)) sp dim) /\ fst e = i /\
+                 In e' (axis_red sx srx dim) /\ snd e' = map (share_ix sx (tvolume sx)) (snd e) /\ In s (snd e').
+Proof.
+  intros Hok i Hi. unfold ssceb_ok in Hok. cbv zeta in Hok.
+  apply andb_prop in Hok. destruct Hok as [Hok HBx]. apply andb_prop in Hok. destruct Hok as [Hok Hbc0].
+  apply andb_prop in Hok. destruct Hok as [Hok Hsumb]. apply andb_prop in Hok. destruct Hok as [Hpick Hsumx].
+  apply Nat.ltb_lt in HBx. apply orb_eqb in Hbc0.
+  set (sb := mkT (tdims sx) (tbatch sp)) in *.
+  pose proof Hpick as Hp. unfold pick_ok in Hp. bsplit.
+  match goal with H : forallb _ ids = true |- _ => rename H into Hids end. rewrite forallb_forall in Hids.
+  repeat match goal with H : (_ =? _)%nat || (_ =? _)%nat = true |- _ => apply orb_eqb in H end.
+  match goal with H : tbatch sx = tbatch sp \/ _ |- _ => rename H into Hbc end.
+  match goal with H : length ids = _ \/ _ |- _ => rename H into Hic end.
+  match goal with H : tvolume sp = _ |- _ => rename H into Hvp end.
+  match goal with H : tvolume sx = _ |- _ => rename H into Hvx end.
+  match goal with H : (0 < tlower sp dim)%nat |- _ => rename H into Hb0 end.
+  set (base := tlower sp dim) in *. set (n := tget sx dim) in *. set (R' := (tvolume sp / base)%nat) in *. set (B := tbatch sp) in *.
+  assert (Hidn : forall b, (b < length ids)%nat -> (nth b ids 0%nat < n)%nat) by (intros b Hb; apply Nat.ltb_lt; apply Hids; apply nth_In; exact Hb).
+  pose proof (pick_fw_sequential sx sp ids dim base n R' B (tbatch sx) eq_refl eq_refl Hvp Hvx eq_refl eq_refl Hbc Hic Hidn Hb0) as Hseq.
+  assert (Hex : exists ks, In (i, ks) (pick_fw sx sp ids dim)).
+  { unfold sequential in Hseq. assert (Hin : In i (map fst (pick_fw sx sp ids dim))) by (rewrite Hseq; apply in_seq; lia).
+    apply in_map_iff in Hin. destruct Hin as ([d ks] & E & Hin). cbn [fst] in E. subst d. exists ks. exact Hin. }
+  destruct Hex as ([k s] & Hin).
+  pose proof (proj1 (pick_fw_spec sx sp ids dim base n R' B (tbatch sx) eq_refl eq_refl Hvp Hvx eq_refl eq_refl Hbc Hic Hidn Hb0 i k s) Hin)
+    as (low & high & b & Hl & Hh & Hb & -> & Ei & Es).
+  (* the reduction group of output i in the batch-B index space *)
+  pose proof Hsumb as Hs. unfold sum_ok in Hs. bsplit.
+  match goal with H : tlower sp dim = tlower sb dim |- _ => rename H into Hbx end.
+  match goal with H : tsize sp = _ |- _ => rename H into Hsp end.
+  match goal with H : tsize sb = _ |- _ => rename H into Hsb end.
+  fold base in Hbx. rewrite <- Hbx in Hsp, Hsb. change (tget sb dim) with n in Hsb. set (Rt := (tsize sp / base)%nat) in *.
+  assert (HRt : Rt = (B * R')%nat).
+  { unfold tsize in Hsp. fold B in Hsp. rewrite Hvp in Hsp. nia. }
+  assert (Ei' : i = flat base 1 low 0 (high + R' * b)) by (rewrite flat_sample; lia).
+  set (id := nth (bidx (length ids) b) ids 0%nat) in *.
+  assert (Hid : (id < n)%nat) by (apply Hidn; apply (bidx_lt _ B b Hb Hic)).
+  set (g := axis_group base n low (high + R' * b)).
+  assert (He : In (i, g) (axis_red sb sp dim)).
+  { apply (axis_red_spec sb sp dim base n Rt eq_refl eq_refl Hsp Hb0). exists low, (high + R' * b)%nat. repeat split; auto. rewrite HRt. nia. }
+  assert (Hbc' : tbatch sx = 1%nat \/ tbatch sx = tbatch sb) by (cbn [sb tbatch]; tauto).
+  destruct (group_share sx srx sb sp dim eq_refl Hbc' Hsumx Hsumb (i, g) He) as (e' & He' & Eg).
+  exists s, (i, g), e'. repeat split; auto.
+  rewrite Eg. cbn [snd]. apply in_map_iff. exists (flat base n low id (high + R' * b)). split.
+  - rewrite flat_sample, <- Hvx. rewrite share_ix_split by (rewrite Hvx; apply flat_lt; auto).
+    rewrite Es. f_equal. unfold bsel. rewrite <- Hvx, <- Nat.mul_assoc. apply bidx_skip.
+  - unfold g, axis_group. apply In_map_range. exists id. split; [exact Hid|reflexivity].
+Qed.
+
+Lemma ssceb_deriv sx srx sp ids dim : desc_deriv (ssceb_desc sx srx sp ids dim) (fun _ => True).
+Proof.
+  intros xs dxs Hx Hok _ r. cbn [ssceb_desc d_fw d_jvp d_ok] in *. apply cderiv_single. rewrite !hd_nth0. intro i.
+  set (x := fun t => nth 0 (xs t) []). set (dx := nth 0 dxs []).
+  pose proof Hok as Hok'. unfold ssceb_ok in Hok'. cbv zeta in Hok'.
+  apply andb_prop in Hok'. destruct Hok' as [Hok' HBx]. apply andb_prop in Hok'. destruct Hok' as [Hok' Hbc0].
+  apply andb_prop in Hok'. destruct Hok' as [Hok' Hsumb]. apply andb_prop in Hok'. destruct Hok' as [Hpick Hsumx].
+  apply Nat.ltb_lt in HBx.
+  set (sb := mkT (tdims sx) (tbatch sp)) in *. set (V := tvolume sx) in *. set (B := tbatch sp) in *.
+  assert (HBp : (0 < B)%nat) by (pose proof Hsumb as H; unfold sum_ok in H; bsplit; assumption).
+  assert (Hn : tsize sb = (B * V)%nat) by reflexivity.
+  destruct (pick_ok_pair sx sp ids dim Hpick) as (_ & Hcov & _).
+  set (xi := share_ix sx V).
+  assert (Hq : ab_fw sx sb sb = bprog B V (fun b i => (bsel sx b * V + i)%nat) (fun b i => (bsel sb b * V + i)%nat))
+    by (apply (ab_fw_bprog sx sb sb V B); reflexivity).
+  destruct (lt_dec i (tsize sp)) as [Hi|Hi].
+  - destruct (ssceb_picked sx srx sp ids dim Hok i Hi) as (s & e & e' & Hin & He & Ei & He' & Eg & Hs). fold sb in He. fold V xi in Eg.
+    destruct (axis_group_ok sb sp dim Hsumb e He) as (Hne & Hbnd).
+    destruct (axis_group_ok sx srx dim Hsumx e' He') as (Hne' & Hbnd'). pose proof (Hbnd' s Hs) as Hsb.
+    assert (Hin' : forall d, In d (snd e) -> In (xi d) (snd e')) by (intros d Hd; rewrite Eg; apply in_map; exact Hd).
+    assert (Egv : forall v : list R, gvals v (snd e') = map (fun d => nth (xi d) v 0) (snd e)) by (intro v; unfold gvals; rewrite Eg, map_map; reflexivity).
+    apply (is_derive_ext (fun t => - (nth s (x t) 0 - Stable.lse_fold (map (fun d => nth (xi d) (x t) 0) (snd e))))).
+    { intro t. rewrite hd_nth0. fold (x t). rewrite (gather_nth 0 _ _ _ i 0%nat s Hcov Hin).
+      rewrite (un_eval_nth 0 fw_negate) by exact Hsb. rewrite (log_softmax_nth sx srx dim Hsumx (x t) e' s He' Hs), Egv. reflexivity. }
+    rewrite ew2_nth by assumption. change (nth 0 (xs 0) []) with (x 0).
+    rewrite (gather_nth 0 _ _ dx i 0%nat s Hcov Hin). rewrite <- Ei at 1. rewrite (axis_sum_nth sb sp dim Hsumb _ e He).
+    rewrite (gsum_ext _ (fun d => exp (nth (xi d) (x 0) 0 - Stable.lse_fold (map (fun r0 => nth (xi r0) (x 0) 0) (snd e))) * nth (xi d) dx 0)).
+    2:{ intros d Hd. pose proof (Hbnd d Hd) as Hdb. rewrite Hn in Hdb. rewrite Hq.
+        rewrite (map_bprog_nth _ B V _ _ d Hdb). cbn [fst snd]. fold (share_ix sx V d). fold (xi d).
+        rewrite (softmax_nth sx srx dim Hsumx (x 0) e' (xi d) He' (Hin' d Hd)), Egv. reflexivity. }
+    unfold fw_subtract.
+    apply (is_derive_eq _ _ (- (nth s dx 0 - gsum (fun d => exp (nth (xi d) (x 0) 0 - Stable.lse_fold (map (fun r0 => nth (xi r0) (x 0) 0) (snd e))) * nth (xi d) dx 0) (snd e)))); [ring|].
+    apply (is_derive_opp (K := R_AbsRing) (V := R_NormedModule) (fun t => nth s (x t) 0 - Stable.lse_fold (map (fun d => nth (xi d) (x t) 0) (snd e))) 0).
+    apply (is_derive_minus (K := R_AbsRing) (V := R_NormedModule) (fun t => nth s (x t) 0) (fun t => Stable.lse_fold (map (fun d => nth (xi d) (x t) 0) (snd e))) 0 _ _ (Hx 0%nat s)).
+    apply (lse_group_deriv (fun d t => nth (xi d) (x t) 0) (fun d => nth (xi d) dx 0) (snd e) Hne). intros d _. apply (Hx 0%nat (xi d)).
+  - rewrite nth_overflow by (rewrite (ew2_length sp _ _ _ HBp); lia).
+    apply (is_derive_ext (fun _ => 0)); [|apply (is_derive_const 0 0)].
+    intro t. rewrite nth_overflow; [reflexivity|]. rewrite (gather_length 0). lia.
+Qed.
+
 (* ------------------------------------------------------------------ the operators of real_family *)
 Definition un_dom (u : unop) (x : R) : Prop :=
   match u with ULog | USqrt => 0 < x | UTan => cos x <> 0 | UAbs => x <> 0 | _ => True end.
@@ -723,6 +875,8 @@ Definition real_dom (o : rop) (xs : list (list R)) : Prop :=
   | RDivScalarL sx sk => scy_dom sx sk (fun x _ => x <> 0) xs
   | RPowScalarR sx sk => scy_dom sx sk (fun x _ => 0 < x) xs
   | RPowScalarL sx sk => scy_dom sx sk (fun _ k => 0 < k) xs
+  | RSCEb sx st srx sy dim => sceb_dom sx st sy dim xs      (* the target sums to 1 along the axis, slice by slice *)
+  | RSparseSCEb sx srx sp ids dim => True
   end.
 
 Lemma un_slope u x : un_dom u x -> is_derive (un_fw u) x (un_bw u x (un_fw u x) 1).
@@ -786,7 +940,7 @@ Qed.
 (* the tangent of every operator of real_family is the derivative of its forward value, on its smooth domain *)
 Theorem jvp_is_derivative (o : rop) : desc_deriv (describeR o) (real_dom o).
 Proof.
-  destruct o as [c|u s|c s k|s|s|s k|b sa sb|sx sy dim|sx sy dim|sx sy dim|sx sy dim|sx sp ids dim|sx sy w0 w1 p0 p1 s0 s1|sx sk|sx sk|sx sk|sx sk]; cbn [describeR real_dom].
+  destruct o as [c|u s|c s k|s|s|s k|b sa sb|sx sy dim|sx sy dim|sx sy dim|sx sy dim|sx sp ids dim|sx sy w0 w1 p0 p1 s0 s1|sx sk|sx sk|sx sk|sx sk|sx st srx sy dim|sx srx sp ids dim]; cbn [describeR real_dom].
   - apply core_deriv.
   - apply (uny_deriv s (un_fw u) (un_bw u) (un_dom u)). apply un_slope.
   - apply (uny_deriv s (fun x => k_fw c x k) (fun x y g => k_bw c x y g k) (k_dom c k)). apply k_slope.
@@ -807,6 +961,8 @@ Proof.
   - apply (scy_deriv sx sk _ _ _ _ _ _ _ chain2_divscl).
   - apply (scy_deriv sx sk _ _ _ _ _ _ _ chain2_powscr).
   - apply (scy_deriv sx sk _ _ _ _ _ _ _ chain2_powscl).
+  - apply sceb_deriv.
+  - apply ssceb_deriv.
 Qed.
 
 (* readable instances: one operand curve x with derivative dx at 0 (e.g. the line x0 + t dx) *)
